@@ -208,7 +208,7 @@ func (p *Parser) parseModule() (module BlockStmt) {
 				expr := p.parseExpressionSuffix(left, OpExpr, OpCall)
 				p.exprLevel--
 				module.List = append(module.List, &ExprStmt{expr})
-				if !p.prevLT && p.tt == SemicolonToken {
+				if p.tt == SemicolonToken {
 					p.next()
 				}
 			} else if p.tt == DotToken {
@@ -221,7 +221,7 @@ func (p *Parser) parseModule() (module BlockStmt) {
 				expr := p.parseExpressionSuffix(left, OpExpr, OpMember)
 				p.exprLevel--
 				module.List = append(module.List, &ExprStmt{expr})
-				if !p.prevLT && p.tt == SemicolonToken {
+				if p.tt == SemicolonToken {
 					p.next()
 				}
 			} else {
@@ -646,6 +646,12 @@ func (p *Parser) parseStmt(allowDeclaration bool) (stmt IStmt) {
 	}
 	if !p.prevLT && p.tt == SemicolonToken {
 		p.next()
+	} else if p.tt == SemicolonToken {
+		// on a following line it still is the terminator of a statement that ends with a semicolon, not an empty statement
+		switch stmt.(type) {
+		case *ExprStmt, *VarDecl, *ReturnStmt, *BranchStmt, *ThrowStmt, *DebuggerStmt, *DoWhileStmt, *DirectivePrologueStmt:
+			p.next()
+		}
 	}
 	p.stmtLevel--
 	return
